@@ -344,6 +344,7 @@ func (P) Generate(g *core.Gen) {
 	genFreeArea(g)
 	genMinHighEdge(g)
 	genStalePool(g)
+	genTwo(g)
 }
 
 func genIndependent(g *core.Gen) {
@@ -878,5 +879,35 @@ func genStalePool(g *core.Gen) {
 			continue
 		}
 		g.Case("stale-pool", len(s.txs) > 0, s.line())
+	}
+}
+
+// genTwo: two templates in a row (thorough: also concurrently) from pools that
+// differ in their witness transactions; the earlier one must stay intact.
+func genTwo(g *core.Gen) {
+	for c := 0; c < g.N(40, 300); c++ {
+		pg := newPoolGen(g.R, 0)
+		pg.s.two = true
+		pg.s.pb = true
+		witTx := func() {
+			k := pg.pick(func(u utxo) bool { return pg.spendable(u) && (u.kind == 'S' || u.kind == 'W') })
+			if k >= 0 {
+				pg.add([]inRef{pg.ref(k)}, pg.randKinds(1+g.R.Intn(2)), g.R.Range(1000, 60000))
+			}
+		}
+		// both halves hold witness transactions, so both templates commit to a
+		// (different) witness merkle root
+		witTx()
+		pg.randomPool(poolOpts{n: g.R.Intn(4), childProb: 40, maxFee: 50000, zeroFeePct: 5, anyKind: true})
+		pg.s.ka = len(pg.s.txs)
+		witTx()
+		pg.randomPool(poolOpts{n: g.R.Intn(4), childProb: 40, maxFee: 50000, zeroFeePct: 5, anyKind: true})
+		if g.R.Chance(1, 4) { // no witness data in one of the halves
+			pg.s.ka = g.R.Intn(len(pg.s.txs) + 1)
+		}
+		pg.s.rev = g.R.Bool()
+		pg.s.conc = g.Thorough() && g.R.Chance(1, 3)
+		s := pg.finish(true)
+		g.Case("two-templates", len(s.txs) > 1, s.line())
 	}
 }
